@@ -37,6 +37,18 @@ func init() {
 		cur := sc.store.FC[id].FileContract
 		data, _ := c.dataFor(cur.FileMerkleRoot, cur.Filesize)
 		rev := w.reviseV1From(sc.s, c, cur, nil, 1)
+		if len(cur.ValidProofOutputs) >= 2 && len(cur.MissedProofOutputs) >= 2 && w.tape.Chance(2, 3) {
+			// the revision also moves value from the renter to the host (what a
+			// payment does), so that it matters which version of the contract pays out
+			fcr := &rev.FileContractRevisions[0].FileContract
+			x := cur.ValidProofOutputs[0].Value.Div64(uint64(w.tape.Range(2, 5)))
+			if cur.MissedProofOutputs[0].Value.Cmp(x) >= 0 && !x.IsZero() {
+				fcr.ValidProofOutputs[0].Value, fcr.ValidProofOutputs[1].Value = fcr.ValidProofOutputs[0].Value.Sub(x), fcr.ValidProofOutputs[1].Value.Add(x)
+				fcr.MissedProofOutputs[0].Value, fcr.MissedProofOutputs[1].Value = fcr.MissedProofOutputs[0].Value.Sub(x), fcr.MissedProofOutputs[1].Value.Add(x)
+				rev.Signatures = nil
+				w.signContractV1(sc.s, &rev, c)
+			}
+		}
 		revised := rev.FileContractRevisions[0].FileContract
 		sp, ok := w.storageProofV1(sc.s, sc.best, id, revised, data)
 		if !ok {
@@ -56,6 +68,10 @@ func init() {
 		verr, okc = sc.offer([]types.Transaction{rev, proof, rev2}, nil, offerOpt{})
 		w.expect(prop, "D5-v1-revise+prove+revise", verr, okc, false, what+", then revised again in the same block")
 		if sc.mine([]types.Transaction{rev, proof}, nil) != nil {
+			return
+		}
+		w.checkPayout(sc, id, false, revised.ValidProofOutputs, "v1 storage proof of a contract revised earlier in the same block (the revision's outputs)")
+		if w.ownViolation() {
 			return
 		}
 		// the element as the update leaves it (revised), proof current
